@@ -84,6 +84,8 @@ int kalign_read_input(char* infile, struct msa** msa, int quiet)
         int type;
         int i,j;
         //ASSERT(infile != NULL,"No input file");
+        DECLARE_TIMER(timer);
+        START_TIMER(timer);
         /* sanity checks  */
         if(infile){
                 if(!my_file_exists(infile)){
@@ -91,9 +93,6 @@ int kalign_read_input(char* infile, struct msa** msa, int quiet)
                 }
         }
 
-
-        DECLARE_TIMER(timer);
-        START_TIMER(timer);
 
 
         /* read everything into a in_buffer  */
@@ -146,6 +145,7 @@ int kalign_read_input(char* infile, struct msa** msa, int quiet)
         RUN(detect_aligned(m));
         RUN(set_sip_nsip(m));
         free_in_buffer(b);
+        b = NULL;
         STOP_TIMER(timer);
         if(!quiet){
                 if(infile){
@@ -155,7 +155,6 @@ int kalign_read_input(char* infile, struct msa** msa, int quiet)
                 }
                 GET_TIMING(timer);
         }
-        DESTROY_TIMER(timer);
 
         if(*msa != NULL){
                 RUN(merge_msa(msa, m));
@@ -166,8 +165,13 @@ int kalign_read_input(char* infile, struct msa** msa, int quiet)
         }
         /* LOG_MSG("%d " , (*msa)->aligned); */
         RUN(check_for_sequences(*msa));
+        DESTROY_TIMER(timer);
         return OK;
 ERROR:
+        DESTROY_TIMER(timer);
+        if(b){
+                free_in_buffer(b);
+        }
         if(m){
                 if(*msa == m){
                         *msa = NULL;
